@@ -414,6 +414,7 @@ func adoptAndCheck(c *run.Ctx, sp stopPoint, gen int, wantNext bool, st *adoptSt
 		}
 	}
 	// delivery: every message at least once, exactly-once ones exactly once
+	dtDelivery := detail() // (takes the lock itself)
 	w.Mu.Lock()
 	count := map[int]int{}
 	for _, dl := range w.Broker.State.Deliveries {
@@ -422,15 +423,15 @@ func adoptAndCheck(c *run.Ctx, sp stopPoint, gen int, wantNext bool, st *adoptSt
 	for _, r := range expect {
 		n := count[r.Marker]
 		if n == 0 {
-			c.Violate("resumed-message-never-delivered", fmt.Sprintf("message %d (record %#x) was pending at the stop yet never reached the broker's subscribers", r.Marker, r.Key), detail())
+			c.Violate("resumed-message-never-delivered", fmt.Sprintf("message %d (record %#x) was pending at the stop yet never reached the broker's subscribers", r.Marker, r.Key), dtDelivery)
 		}
 		if r.Level == 2 && n > 1 {
-			c.Violate("exactly-once-delivered-twice", fmt.Sprintf("exactly-once message %d reached the broker's subscribers %d times across restarts", r.Marker, n), detail())
+			c.Violate("exactly-once-delivered-twice", fmt.Sprintf("exactly-once message %d reached the broker's subscribers %d times across restarts", r.Marker, n), dtDelivery)
 		}
 	}
 	for _, p := range newPubs {
 		if n := count[p.N]; n == 0 || p.Level == 2 && n > 1 {
-			c.Violate("new-message-delivery", fmt.Sprintf("message %d published after the restart was delivered %d times", p.N, n), detail())
+			c.Violate("new-message-delivery", fmt.Sprintf("message %d published after the restart was delivered %d times", p.N, n), dtDelivery)
 		}
 	}
 	for _, o := range w.Online {
